@@ -270,6 +270,7 @@ class JumpClock:
         self.n = 0
         self.limit = None
         self.site = None
+        self.last_tick = 0
 
     def __call__(self, code, off, dest):
         if not kernel.is_repo_file(code.co_filename):
@@ -285,20 +286,49 @@ class JumpClock:
 _CLOCK = JumpClock()
 
 
+STALL_SECONDS = 30.0
+
+
+class _Stall(BaseException):
+    pass
+
+
+def _on_stall_alarm(signum, frame):
+    """Fires every STALL_SECONDS during phase 2.  If simulated time has not advanced at all since the last tick the
+    call is stuck *outside* Python-level loops (e.g. catastrophic backtracking inside the regex engine, which checks
+    for signals): no step budget can ever run out, so the stall itself is the verdict."""
+    if _CLOCK.n - _CLOCK.last_tick < 100:
+        site = "?"
+        f = frame
+        while f is not None:
+            if kernel.is_repo_file(f.f_code.co_filename):
+                site = f"{os.path.basename(f.f_code.co_filename)}:{f.f_code.co_name}"
+                break
+            f = f.f_back
+        raise _Stall(site)
+    _CLOCK.last_tick = _CLOCK.n
+
+
 def count_jumps(fn, limit=None) -> tuple[int, tuple | None]:
     """Run fn under the JUMP clock.  Returns (jumps, outcome or ('budget', site))."""
     if mon.get_tool(TOOL) is None:
         mon.use_tool_id(TOOL, "vsim")
     mon.register_callback(TOOL, mon.events.JUMP, _CLOCK)
-    _CLOCK.n, _CLOCK.limit, _CLOCK.site = 0, limit, None
+    _CLOCK.n, _CLOCK.limit, _CLOCK.site, _CLOCK.last_tick = 0, limit, None, 0
+    old = signal.signal(signal.SIGALRM, _on_stall_alarm)
+    signal.setitimer(signal.ITIMER_REAL, STALL_SECONDS, STALL_SECONDS)
     mon.set_events(TOOL, mon.events.JUMP)
     mon.restart_events()
     try:
         out = fn()
     except _Budget as e:
         out = ("budget", str(e))
+    except _Stall as e:
+        out = ("budget", f"stalled-outside-python-loops:{e}")
     finally:
         mon.set_events(TOOL, 0)
+        signal.setitimer(signal.ITIMER_REAL, 0)
+        signal.signal(signal.SIGALRM, old)
     return _CLOCK.n, out
 
 
@@ -417,7 +447,7 @@ def run_entry(entry: str, content: str, scratch: str, probe: dict | None = None)
             tk = Tokenizer(generate_tokens(_iter_reader(content)))
             return kernel.canon_tree(XonshParser(tk).parse("file"))
         raise kernel.HarnessError(f"unknown entry {entry}")
-    except (_Alarm, _Budget, kernel.HarnessError):
+    except (_Alarm, _Budget, _Stall, kernel.HarnessError):
         raise
     except BaseException as e:  # noqa: BLE001
         return kernel.canon_exception(e)
